@@ -266,6 +266,10 @@ def tbLineCore (d : TBDrv) (lineNo : Nat) (ts : List String) : TBDrv × List Str
     match kvNat rest "id", kvInt rest "chips", kvInt rest "seat" with
     | some id, some chips, some seat =>
       let ch := ((kv rest "ch").bind (·.toInt?)).map (fun c => [c]) |>.getD []
+      -- the recorded draw must be one `RandomAssignSeats` could have made (the hypothesis `DrawsLegal` of C03_for_every_history)
+      if (reserve m { id := id, chips := chips, seat := seat } ch).2 == .ok && !(decide (DrawLegal m (.reserve { id := id, chips := chips, seat := seat } ch))) then
+        mism d s!"op=reserve recorded-seat-draw-not-legal ch={ch}"
+      else
       accept "reserve" (reserve m { id := id, chips := chips, seat := seat } ch) true
     | _, _, _ => (d, [s!"BADLINE {lineNo}"])
   | "join" :: rest =>
@@ -282,7 +286,10 @@ def tbLineCore (d : TBDrv) (lineNo : Nat) (ts : List String) : TBDrv × List Str
     | none => (d, [s!"BADLINE {lineNo}"])
   | "update" :: rest =>
     match (kv rest "joins").bind parseJoins, (kv rest "leaves").bind natList, (kv rest "ch").bind intList with
-    | some js, some lv, some ch => accept "update" (update m js lv ch) true
+    | some js, some lv, some ch =>
+      if (update m js lv ch).2 == .ok && !(decide (DrawLegal m (.update js lv ch))) then
+        mism d s!"op=update recorded-seat-draw-not-legal ch={ch}"
+      else accept "update" (update m js lv ch) true
     | _, _, _ => (d, [s!"BADLINE {lineNo}"])
   | ["blind", b] =>
     match parseBlind b with
